@@ -120,8 +120,15 @@ theorem embDec_eq (w : Bits) (hw : w.length = 16) :
   simp only [emb_graphs.1 _ hpi, emb_graphs.2 _ hlc, bind, Except.bind, pure, Except.pure, n0, n1, n2,
     hdata]
   rw [if_neg (by omega), if_neg (by omega), if_neg (by omega)]
+  have hpw : bitsToNat (sl w 7 16) < 512 := by have := bitsToNat_lt (sl w 7 16); rwa [h3] at this
+  have hpg : bitsToNat (sl (qr1676.gen (sl w 0 7)) 7 16) < 512 := by
+    have := bitsToNat_lt (sl (qr1676.gen (sl w 0 7)) 7 16)
+    rwa [show (sl (qr1676.gen (sl w 0 7)) 7 16).length = 9 by
+      rw [sl_length, Code.gen_length, qr_nk.1]; rfl] at this
   by_cases hz : bitsToNat (sl w 7 16) = 0
-  · rw [if_pos hz, if_pos (by omega)]
+  · rw [if_pos hz, if_pos (show bitsToNat (sl w 7 16) ≤ 0 by omega),
+      if_neg (show ¬ bitsToNat (sl (qr1676.gen (sl w 0 7)) 7 16) ≥ 512 by omega)]
+    show Except.ok _ = Except.ok _
     congr 2
     have hm : (sl w 0 7).length = qr1676.k := by rw [qr_nk.2]; simp [sl_length, hw]
     have hg := gen_word qr1676 qr_wf _ hm
@@ -131,7 +138,9 @@ theorem embDec_eq (w : Bits) (hw : w.length = 16) :
     simp only [EmbObj.enc, n0, n1, n2, hdata, hsl]
     rw [hg]
     exact Code.check_gen qr_wf _ hm
-  · rw [if_neg hz, if_neg (by omega)]
+  · rw [if_neg hz, if_neg (show ¬ bitsToNat (sl w 7 16) ≤ 0 by omega),
+      if_neg (show ¬ bitsToNat (sl w 7 16) ≥ 512 by omega)]
+    show Except.ok _ = Except.ok _
     congr 3
     simp only [EmbObj.enc, n0, n1, n2, n3, hdata]
     rw [sl_append_sl w 0 7 16 (by omega) (by omega), ← hw, sl_self]
@@ -214,7 +223,13 @@ theorem embInit_zero (cc pi lc : Nat) (hcc : cc < 16) (hpi : pi < 2) (hlc : lc <
   refine ⟨?_, henc true⟩
   unfold embInit
   simp only [emb_graphs.1 _ hpi, emb_graphs.2 _ hlc, bind, Except.bind, pure, Except.pure]
-  rw [if_neg (by omega), if_neg (by omega), if_neg (by omega), if_pos (by omega)]
+  have hpg : bitsToNat (sl (qr1676.gen (natToBits 4 cc ++ natToBits 1 pi ++ natToBits 2 lc)) 7 16) < 512 := by
+    have := bitsToNat_lt (sl (qr1676.gen (natToBits 4 cc ++ natToBits 1 pi ++ natToBits 2 lc)) 7 16)
+    rwa [show (sl (qr1676.gen (natToBits 4 cc ++ natToBits 1 pi ++ natToBits 2 lc)) 7 16).length = 9 by
+      rw [sl_length, Code.gen_length, qr_nk.1]; rfl] at this
+  rw [if_neg (by omega), if_neg (by omega), if_neg (by omega), if_pos (Nat.le_refl 0),
+    if_neg (show ¬ bitsToNat (sl (qr1676.gen (natToBits 4 cc ++ natToBits 1 pi ++ natToBits 2 lc)) 7 16) ≥ 512 by omega)]
+  show Except.ok _ = Except.ok _
   congr 2
   rw [henc false]
   exact Code.check_gen qr_wf _ hm
